@@ -251,6 +251,10 @@ func (d *csDirector) recipientOf(sender *rig.Account, tag *csTag) string {
 		return d.r.Acc(rng.Intn(6)).Addr.String()
 	case 3:
 		tag.Recipient = "fresh"
+		if rng.Intn(2) == 0 {
+			tag.Recipient = "fresh-32-bytes"
+			return sdk.AccAddress([]byte(fmt.Sprintf("fresh-32-byte-long-addres-%06d", rng.Intn(1000000)))).String()
+		}
 		return sdk.AccAddress([]byte(fmt.Sprintf("fresh-address-%06d", rng.Intn(1000000)))).String()
 	case 4:
 		tag.Recipient = "blocked"
